@@ -20,19 +20,19 @@ variable {α : Type} [Field α] [LinearOrder α] [IsStrictOrderedRing α]
 theorem combine_row_perm [Inhabited α] (J : Mat α) (m n : Nat) (hJ : MatWF J m n) (w : Vec α)
     (hw : w.length = m) (p : List Nat) (hp : p.Perm (List.range m)) :
     combine n (permV p J) (permV p w) = combine n J w := by
-  sorry
+  exact Eqv.combine_row_perm' J m n hJ w hw p hp
 
 /-- the Gramian of the permuted matrix is the Gramian with rows and columns permuted -/
 theorem gram_row_perm [Inhabited α] (J : Mat α) (m n : Nat) (hJ : MatWF J m n) (p : List Nat)
     (hp : ∀ i ∈ p, i < m) :
     gram (permV p J) = permV p ((gram J).map (permV p)) := by
-  sorry
+  exact Eqv.gram_row_perm' J m n hJ p hp
 
 /-- a minimiser of the projection QP stays a minimiser after permuting everything consistently -/
 theorem isQPMin_perm [Inhabited α] (G : Mat α) (m : Nat) (hG : SymmSquare G m) (u w : Vec α)
     (hu : u.length = m) (p : List Nat) (hp : p.Perm (List.range m)) (h : IsQPMin G u w) :
     IsQPMin (permV p (G.map (permV p))) (permV p u) (permV p w) := by
-  sorry
+  exact Eqv.isQPMin_perm' G m hG u w hu p hp h
 
 /-- DualProj: permuting the rows and the preference vector together does not change the result -/
 theorem dualproj_row_perm [Inhabited α] (J : Mat α) (m n : Nat) (hJ : MatWF J m n)
@@ -41,7 +41,7 @@ theorem dualproj_row_perm [Inhabited α] (J : Mat α) (m n : Nat) (hJ : MatWF J 
     (h : dualprojWeights J s normEps regEps u = some (w, mg))
     (h' : dualprojWeights (permV p J) s normEps regEps (permV p u) = some (w', mg')) :
     combine n (permV p J) w' = combine n J w := by
-  sorry
+  exact Eqv.dualproj_row_perm' J m n hJ s normEps regEps hre u hu p hp w w' mg mg' h h'
 
 /-- UPGrad likewise -/
 theorem upgrad_row_perm [Inhabited α] (J : Mat α) (m n : Nat) (hJ : MatWF J m n)
@@ -50,18 +50,21 @@ theorem upgrad_row_perm [Inhabited α] (J : Mat α) (m n : Nat) (hJ : MatWF J m 
     (h : upgradWeights J s normEps regEps u = some (w, mg))
     (h' : upgradWeights (permV p J) s normEps regEps (permV p u) = some (w', mg')) :
     combine n (permV p J) w' = combine n J w := by
-  sorry
+  exact Eqv.upgrad_row_perm' J m n hJ s normEps regEps hre u hu p hp w w' mg mg' h h'
 
 /-- TrimmedMean: sorting forgets the order of the rows -/
 theorem trimmedMean_row_perm [Inhabited α] (b m n : Nat) (J : Mat α) (hJ : MatWF J m n)
     (p : List Nat) (hp : p.Perm (List.range m)) :
     trimmedMean b n (permV p J) = trimmedMean b n J := by
-  sorry
+  simp only [trimmedMean]
+  apply List.map_congr_left
+  intro c _
+  exact Tjd.Props.C16.trimmedMeanCol_perm b _ _ (Eqv.col_permV_perm J m hJ.1 p hp c)
 
 /-- GradDrop (same uniform sample, leak vector permuted along): finite sums commute -/
 theorem graddrop_row_perm [Inhabited α] (m n : Nat) (J : Mat α) (hJ : MatWF J m n) (leak U : Vec α)
     (hl : leak.length = m) (p : List Nat) (hp : p.Perm (List.range m)) :
     graddrop (permV p J) (permV p leak) U n = graddrop J leak U n := by
-  sorry
+  exact Eqv.graddrop_row_perm' m n J hJ leak U hl p hp
 
 end Tjd.Props.C10
